@@ -14,6 +14,9 @@ REGIMES = {
     # the double nearest k / 10). Only for operations that COMPARE bounds (no sums at ties): values read back are
     # accepted within 1e-6 tick of a grid point.
     "D1": dict(scale=10, eps=0, prec=None),
+    # set_precision(3) with millisecond ticks: decimal (non-dyadic) values under a decimal precision. Segments must be
+    # at least two ticks long (whether a ONE-tick segment is empty depends on float noise in end - start).
+    "P3": dict(scale=1000, eps=1, prec=3),
 }
 
 
@@ -105,7 +108,7 @@ class TB:
         except (TypeError, ValueError, OverflowError) as e:
             raise OffGrid(repr(value)) from e
         if f.denominator != 1:
-            if self.regime == "D1":
+            if self.regime in ("D1", "P3"):
                 k = round(f)
                 if abs(f - k) <= Fraction(1, 10 ** 6):
                     return int(k)
